@@ -63,6 +63,11 @@ def _run_one(args):
             for o2, n2 in more:
                 edited = edited.replace(o2, n2)
             fh.write(edited)
+        saved = os.environ.get("TSVERIF_REPLAY")
+        # the replay rules (whole query histories on the real Brownian tree) read torchsde/_brownian only: a variant that
+        # edits another file leaves their verdict on the base tree untouched; the others get the smallest matrix
+        touched = [relpath]
+        os.environ["TSVERIF_REPLAY"] = "light" if any("_brownian" in r for r in touched) else "skip"
         try:
             code, rep = run_property(pid, tmp, "quick", 0, write=False, quiet=True)
             # normalise construct keys (they contain no absolute paths, only relpaths)
@@ -72,6 +77,11 @@ def _run_one(args):
         except Exception as e:
             return v_name, "analysis-error", f"{type(e).__name__}: {e}", None
     finally:
+        if "saved" in locals():
+            if saved is None:
+                os.environ.pop("TSVERIF_REPLAY", None)
+            else:
+                os.environ["TSVERIF_REPLAY"] = saved
         shutil.rmtree(tmp, ignore_errors=True)
 
 
